@@ -4,7 +4,7 @@ From Coq Require Import String Ascii.
 From V.lib Require Import Base.
 From V.c19 Require Import C19Model C19Spec C19InvProofs C19TrackProofs C19DescProofs C19ElngProofs C19ScopeProofs C19Witness.
 From V.c19 Require Import C19RecModel C19RecProofs C19RecLinkProofs.
-From V.c01 Require Import C01Codec C01Model.
+From V.c19 Require Import C19BoxCodec C19BoxModel.
 From V.c19 Require Import C19TreeModel C19TreeProofs C19TreeScopeProofs C19LeafProofs C19PrintParseProofs C19RoundtripProofs.
 
 
